@@ -23,7 +23,7 @@ FAIL_CLASSES = {"ConverterFailure": ConverterFailure, "KeyError": KeyError, "Run
                 "AttributeError": AttributeError}
 
 
-def make_converter(fail_unit=None, shift=0.0, fail_exc="ConverterFailure"):
+def make_converter(fail_unit=None, shift=0.0, fail_exc="ConverterFailure", ret="array"):
     """Affine test converter with a known result: (values, from, to=None) -> (values', unit string)."""
     exc = FAIL_CLASSES[fail_exc]
 
@@ -38,7 +38,12 @@ def make_converter(fail_unit=None, shift=0.0, fail_exc="ConverterFailure"):
                 raise exc(f"{from_unit}->{to_unit}")
             g = FAMILIES[to_unit][1]
         arr = np.asarray(values, dtype=float)
-        return arr * f / g + shift, to_unit
+        out = arr * f / g + shift
+        if ret == "series":
+            out = pd.Series(out)          # carries its own 0..n-1 index: must be taken by position, not aligned
+        elif ret == "list":
+            out = out.tolist()
+        return out, to_unit
 
     return conv
 
@@ -121,6 +126,7 @@ class C06(Prop):
                           "default": rng.choice(["none", "none", "other", "only"]),
                           # an offset makes results of whole-number inputs fractional; the converter's failure class varies
                           "shift": rng.choice([0.0, 0.0, 0.15, 273.15]),
+                          "ret": rng.choice(["array", "array", "series", "list"]),
                           "fail_exc": rng.choice(["ConverterFailure", "ConverterFailure", "KeyError", "RuntimeError", "AttributeError"]),
                           "extra_dict": rng.random() < 0.3})
         return cases
@@ -169,7 +175,8 @@ class C06(Prop):
         if case["pint"]:
             from pdtable.units.pint import pint_converter as conv
         else:
-            conv = make_converter(case["fail_unit"], case.get("shift", 0.0), case.get("fail_exc", "ConverterFailure"))
+            conv = make_converter(case["fail_unit"], case.get("shift", 0.0), case.get("fail_exc", "ConverterFailure"),
+                                  case.get("ret", "array"))
         obs = {"before": before}
         import pdtable.units
 
